@@ -5,6 +5,8 @@ import (
 	"bytes"
 	"errors"
 	"fmt"
+	"time"
+	_ "time/tzdata"
 
 	"go.lstv.dev/util/date"
 	"verif/mc"
@@ -12,9 +14,19 @@ import (
 )
 
 type encArg struct {
-	Y int64 `json:"y"`
-	M int   `json:"m"`
-	D int   `json:"d"`
+	Y    int64  `json:"y"`
+	M    int    `json:"m"`
+	D    int    `json:"d"`
+	Zone string `json:"time_local,omitempty"` // the process's local zone during the call ("" = unchanged)
+}
+
+var defaultLocal = time.Local
+
+func setupEnc(a encArg) {
+	time.Local = defaultLocal
+	if loc, err := time.LoadLocation(a.Zone); err == nil && a.Zone != "" {
+		time.Local = loc
+	}
 }
 
 type decArg struct {
@@ -184,7 +196,8 @@ func probeReuse(a reuseArg) (string, string) {
 func main() {
 	mc.Main("C11", "encode side: every real date of the stated year sets; decode side: complete grids of byte strings (all month/day byte pairs, all version bytes, all lengths 0..16, year-byte cross product); "+
 		"non-trivial = a 7-byte version-1 string (whether or not it names a real date)", func(r *mc.Run) {
-		enc := mc.NewProbe(r, "encode_roundtrip", nil, probeEnc)
+		enc := mc.NewProbe(r, "encode_roundtrip", setupEnc, probeEnc)
+		r.Reset = func() { time.Local = defaultLocal }
 		dec := mc.NewProbe(r, "decode", nil, probeDec)
 		r.Assume("reference encoder: version byte 1, two's-complement big-endian int32 year, month, day (one-based), written independently")
 		r.Assume("a decoded 7-byte version-1 string must name a real Gregorian date; for |year| > 999,999,999 success (with the exact triple) or an error are both accepted")
@@ -219,6 +232,22 @@ func main() {
 		r.Phase("encode+decode every date of years -400..9999", "complete", func() {
 			r.Parallel(10400, 8, func(w *mc.W, i int64) { perYear(w, i-400) })
 		})
+		for _, z := range mc.Zones {
+			z := z
+			r.Phase(fmt.Sprintf("time.Local = %s: encode+decode every day of 1880-2040", z), "complete for the listed years", func() {
+				setupEnc(encArg{Zone: z})
+				r.Parallel(161, 1, func(w *mc.W, i int64) {
+					y := 1880 + i
+					for m := 1; m <= 12; m++ {
+						for d := 1; d <= oracle.DaysIn(y, m); d++ {
+							w.Point()
+							enc.Do(w, encArg{Y: y, M: m, D: d, Zone: z})
+						}
+					}
+				})
+				time.Local = defaultLocal
+			})
+		}
 		var years []int64
 		p10 := int64(1)
 		for k := 0; k <= 8; k++ {
